@@ -16,6 +16,7 @@
 import errno
 import gc
 import io
+import itertools
 import os
 import pprint
 import queue
@@ -589,19 +590,31 @@ def spawn_layer_in_subprocess(result, script_parts, options, features,
         stderr_thread.join()
         # The report of the subprocess consists of lines terminated by
         # '\n'; test names may contain other line separators such as '\r'.
+        # Whatever follows the last '\n' was cut short (the subprocess died
+        # while writing it) and is not a line of the report.
         errlines = stderr_buf[0].split(b'\n')
+        erriter = iter(errlines[:-1])
         if errlines[-1] == b'':
             del errlines[-1]
-        erriter = iter(errlines)
         nfail = nerr = 0
+        names = []
+        report_complete = False
         for line in erriter:
             try:
-                result.num_ran, nfail, nerr = map(int, line.strip().split())
+                num_ran, nfail, nerr = map(int, line.strip().split())
             except ValueError:
                 continue
             else:
+                # Only use the report if all the names it announces follow.
+                nfail, nerr = max(nfail, 0), max(nerr, 0)
+                names = list(itertools.islice(erriter, nfail + nerr))
+                report_complete = len(names) == nfail + nerr
                 break
+        if report_complete:
+            result.num_ran = num_ran
         else:
+            nfail = nerr = 0
+            names = []
             errmsg = "Could not communicate with subprocess!"
             errors.append(("subprocess for %s" % layer_name, None))
             if options.verbose >= 1:
@@ -620,19 +633,10 @@ def spawn_layer_in_subprocess(result, script_parts, options, features,
                                      for line in errlines[-10:]))
             output.error_with_banner(errmsg)
 
-        while nfail > 0:
-            nfail -= 1
-            # Doing erriter.next().strip() confuses the 2to3 fixer, so
-            # we need to do it on a separate line. Also, in python 3 this
-            # returns bytes, so we decode it.
-            next_fail = next(erriter)
+        # In python 3 the names are bytes, so we decode them.
+        for next_fail in names[:nfail]:
             failures.append((next_fail.strip().decode(), None))
-        while nerr > 0:
-            nerr -= 1
-            # Doing erriter.next().strip() confuses the 2to3 fixer, so
-            # we need to do it on a separate line. Also, in python 3 this
-            # returns bytes, so we decode it.
-            next_err = next(erriter)
+        for next_err in names[nfail:]:
             errors.append((next_err.strip().decode(), None))
 
     finally:
